@@ -29,9 +29,11 @@ Act(e) ==
       [] e.ev = "container"      -> Container(e.kind, e.t)
       [] e.ev = "plain"          -> Plain(e.form, e.tw, e.k, e.t)
       [] e.ev = "incompatible"   -> Incompatible(e.t)
-      [] e.ev = "dimensionality" -> Dimensionality
+      [] e.ev = "dimensionality" -> DimensionalityOf(e.form)
+      [] e.ev = "unitof"         -> UnitOfQ(e.form, e.simp)
+      [] e.ev = "strip"          -> Strip
       [] e.ev = "defunit"        -> DefaultUnit(e.reg)
-      [] e.ev = "unitless"       -> UnitlessIn(e.reg)
+      [] e.ev = "unitless"       -> UnitlessInForm(e.reg, e.form)
       [] e.ev = "derived"        -> Derived(e.reg, e.key)
       [] e.ev = "roundtrip"      -> RoundTrip(e.reg)
       [] e.ev = "bexp"           -> BackendCall(e.be, e.fn, e.form)
@@ -45,7 +47,9 @@ FirstBad(obs, want, i) == IF i > Len(want) THEN 0
 ObsClause(e) ==
     CASE e.ev \in {"factor", "seal"} -> ""
       [] e.ev = "convert" -> LET x == E_Convert(e.t) IN
-             IF ~Near(e.x, x.x) THEN "magnitude" ELSE IF ~Near(e.si, x.si) THEN "multiply-back" ELSE ""
+             IF ~Near(e.x, x.x) THEN "magnitude" ELSE IF ~Near(e.si, x.si) THEN "multiply-back"
+             ELSE IF ~Near(e.rs_x, x.x) \/ ~Near(e.rs_si, x.si) THEN "rescale"
+             ELSE IF ~Near(e.uq_x, x.x) THEN "uncertain-magnitude" ELSE ""
       [] e.ev = "back" -> LET x == E_Back IN
              IF ~Near(e.x, x.x) THEN "magnitude" ELSE IF ~Near(e.si, x.si) THEN "multiply-back" ELSE ""
       [] e.ev = "via" -> LET x == E_Via(e.u1, e.u2) IN
@@ -57,11 +61,20 @@ ObsClause(e) ==
       [] e.ev = "plain" -> LET want == E_Plain(e.form, e.tw, e.k, e.t).xs IN
              IF Len(e.xs) # Len(want) THEN "length"
              ELSE IF FirstBad(e.xs, want, 1) # 0 THEN "element" ELSE ""
-      [] e.ev = "incompatible" -> IF e.raised THEN "" ELSE "missing-raise"
-      [] e.ev = "dimensionality" -> IF e.dim = E_Dimensionality.dim /\ e.extra = <<>> THEN "" ELSE "dimensionality"
+      [] e.ev = "incompatible" -> IF ~e.raised THEN "missing-raise" ELSE IF ~e.rs_raised THEN "rescale-missing-raise" ELSE ""
+      [] e.ev = "dimensionality" -> IF ~(e.dim = E_Dimensionality.dim /\ e.extra = <<>>) THEN "dimensionality"
+                                    ELSE IF e.unitless # E_Dimensionality.unitless THEN "is_unitless" ELSE ""
+      [] e.ev = "unitof" -> LET x == E_UnitOfQ(e.form, e.simp) IN
+             IF e.dim # x.unit.dim THEN "unit-dimension" ELSE IF ~Near(e.si, NOfScale(x.unit.scale)) THEN "unit-size"
+             ELSE IF ~Near(e.mag, x.mag) THEN "simplified" ELSE ""
+      [] e.ev = "strip" -> LET x == E_Strip IN
+             IF e.raised # x.raise THEN (IF e.raised THEN "unexpected-raise" ELSE "missing-raise")
+             ELSE IF ~x.raise /\ ~Near(e.x, x.x) THEN "magnitude" ELSE ""
       [] e.ev = "defunit" -> LET u == E_DefaultUnit(e.reg).unit IN
              IF e.dim # u.dim THEN "unit-dimension" ELSE IF ~Near(e.si, NOfScale(u.scale)) THEN "unit-size" ELSE ""
-      [] e.ev = "unitless" -> IF ~Near(e.x, E_UnitlessIn(e.reg).x) THEN "magnitude" ELSE ""
+      [] e.ev = "unitless" -> LET x == E_UnitlessInForm(e.reg, e.form) IN
+             IF e.form = "scalar" THEN (IF ~Near(e.x, x.x) THEN "magnitude" ELSE "")
+             ELSE IF Len(e.xs) # Len(x.xs) THEN "length" ELSE IF FirstBad(e.xs, x.xs, 1) # 0 THEN "element" ELSE ""
       [] e.ev = "derived" -> LET u == E_Derived(e.reg, e.key).unit IN
              IF e.dim # u.dim THEN "unit-dimension" ELSE IF ~Near(e.si, NOfScale(u.scale)) THEN "unit-size" ELSE ""
       [] e.ev = "roundtrip" -> LET want == E_RoundTrip(e.reg) IN
@@ -74,7 +87,9 @@ ObsClause(e) ==
       [] e.ev = "bexp" -> LET x == E_BackendCall(e.be, e.fn, e.form) IN
              IF e.raised = x.raise THEN ""
              ELSE IF ~e.raised THEN "missing-raise"
-             ELSE IF e.exc = "OverflowError" /\ e.fn = "exp" /\ \E i \in 1..Len(x.vals) : Exceeds(NumRat(x.vals[i]), 709) THEN ""
+             ELSE IF e.exc = "OverflowError" /\ e.fn \in {"exp", "expm1"} /\ \E i \in 1..Len(x.vals) : Exceeds(NumRat(x.vals[i]), 709) THEN ""
+             \* math.log & co. refuse non-positive numbers themselves (log1p: numbers <= -1)
+             ELSE IF e.exc = "ValueError" /\ e.be = "math" /\ e.fn \in {"log", "log10", "log2", "log1p"} /\ NumRat(x.vals[1]).s < 0 THEN ""
              ELSE "unexpected-raise"
       [] OTHER -> "unknown-event"
 
